@@ -17,7 +17,7 @@ func rulesC03Round3(c *Ctx) {
 	const rule = "C03.overlay"
 	nCopy := 0
 	for _, fn := range c.P.FuncsInPkg("storage/mkvs") {
-		for _, b := range fn.Blocks {
+		for _, b := range blocksIP(fn) {
 			for _, in := range b.Instrs {
 				u, ok := in.(*ssa.UnOp)
 				if !ok || namedOf(u.Type()) != "storage/mkvs.treeOverlay" {
